@@ -27,3 +27,13 @@ Theorem C07_cbdt_offsets_spec : forall (lens : list Z) (off : Z),
   Forall2 (fun ab n => (snd ab - fst ab = 9 + n)%Z) (cbdt_offsets off lens) lens.
 Proof. exact cbdt_offsets_spec. Qed.
 Print Assumptions C07_cbdt_offsets_spec.
+
+(* what the CBLC predicate evaluated on every emitted bitmap font means: no glyph id is indexed twice (within a strike
+   or by two strikes of the font), and every indexed id lies inside its strike's start..end and inside the glyph set *)
+Theorem C07_valid_cblc_no_glyph_twice :
+  forall (strikes : list (nat * nat * list nat)) (n : nat),
+    valid_cblc strikes n = true ->
+    NoDup (concat (map snd strikes)) /\
+    forall st x, In st strikes -> In x (snd st) -> fst (fst st) <= x <= snd (fst st) /\ x < n.
+Proof. exact valid_cblc_no_glyph_twice. Qed.
+Print Assumptions C07_valid_cblc_no_glyph_twice.
